@@ -115,7 +115,7 @@ def ref_job(job):
                     paths.collect_paths(pathsname=name, filename=ref)
                     return f, [list(l) for l in paths.results_manager.get_named_results(name)[0].lines.next()]
                 except Exception as ex:  # noqa
-                    if lines == []:
+                    if lines == [] and isinstance(ex, Exception) and type(ex).__name__ in ("InputException", "FileNotFoundError", "FileException"):
                         out["empty_ref"].append({"ref": ref, "exc": type(ex).__name__ + ": " + str(ex)[:120]})
                         return None, None
                     raise
@@ -314,7 +314,11 @@ def run(ctx):
         rsrc.append((rl, o))
     rbad = sorted(coq_bad(ctx, "c20r", "Csv.CsvModel Data.DataModel Mgr.Archive Mgr.Chain Harness.C20Cmp", "c20ref", rlits, ["c20_ref_agree"], chunk=60)["c20_ref_agree"]) if rlits else []
     selfs = [(rl, o["self_replay"]) for (jid, nruns, rl), o in zip(rjobs, rres) if not o["exc"] and o.get("self_replay")]
-    self_exc = [(rl, x) for rl, x in selfs if x.get("exc") and x["want"]]
+    # D26 is the library's own refusal ("... does not point to a csv"): any other exception of a self-replay is reported with the rest
+    self_exc = [(rl, x) for rl, x in selfs if x.get("exc") and x["want"] and x["exc"].startswith("InputException")]
+    for rl, x in selfs:
+        if x.get("exc") and x["want"] and not x["exc"].startswith("InputException"):
+            fails.append({"kind": "a group replaying its own most recent run raised something other than the library's refusal", "rows": rl, **x})
     self_bad = [(rl, x) for rl, x in selfs if not x.get("exc") and x["got"] != x["want"]]
     if self_exc:
         if known_open(ctx.pid, SIG_D26):
